@@ -419,18 +419,29 @@ def load_known():
     return json.load(open(p))
 
 
+def matches_known(prop, v):
+    """is this violation one of the OPEN known findings of the property (known_findings.json, non-empty `match`)?"""
+    for k in load_known():
+        m = k.get("match") or {}
+        if k.get("property") == prop and k.get("status") == "open" and m and all(str(v.get(kk)) == str(vv) for kk, vv in m.items()):
+            return k
+    return None
+
+
+def prefer_concrete(run):
+    """a broken proof / correspondence without a failing input is reported as such (`no-failing-input-found`) UNLESS the search found
+    concrete failing inputs — those then replace it.  Violations that are open known findings do not count as "found": a broken
+    obligation must never disappear behind them."""
+    if any(not v.get("no_failing_input_found") and not matches_known(run.prop, v) for v in run.violations):
+        run.violations = [v for v in run.violations if not v.get("no_failing_input_found")]
+
+
 def finish(run, level="proof", trusted_base=None, assumptions=None, checker_cmd=None):
     os.makedirs(EVIDENCE, exist_ok=True)
     os.makedirs(REPLAYS, exist_ok=True)
-    known = [k for k in load_known() if k.get("property") == run.prop and k.get("status") == "open"]
     reported = []
     for v in run.violations:
-        matched = None
-        for k in known:
-            m = k.get("match", {})
-            if all(str(v.get(kk)) == str(vv) for kk, vv in m.items()):
-                matched = k
-                break
+        matched = matches_known(run.prop, v)
         if matched:
             line = "KNOWN-FINDING: property=%s %s" % (run.prop, matched.get("summary", ""))
             if line not in run.known:
